@@ -204,7 +204,7 @@ Definition len_ok (v : bytes) : Prop := N.of_nat (length v) < 461168601842738790
 
 Theorem bytes_roundtrip v rest : len_ok v -> unmarshal_bytes (marshal_bytes v ++ rest) = Ok (v, rest).
 Proof.
-  unfold len_ok. intros H. unfold unmarshal_bytes, marshal_bytes.
+  unfold len_ok. intros H. unfold unmarshal_bytes, unmarshal_bytes_dep, marshal_bytes.
   rewrite <- app_assoc. rewrite varint_roundtrip by (unfold two64; lia).
   cbn [obind].
   pose proof (marshal_uint_len_le (N.of_nat (length v))) as L10.
@@ -213,6 +213,7 @@ Proof.
   replace (m + (length v + length rest) - (length v + length rest))%nat with m by lia.
   rewrite i64_of_small by (unfold two63; lia).
   rewrite wrap64_small by lia.
+  destruct (Z.ltb_spec (Z.of_N (N.of_nat (length v))) 0); [lia|]. cbn [orb].
   destruct (Z.ltb_spec (Z.of_nat (m + (length v + length rest))) (Z.of_N (N.of_nat (length v)) + Z.of_nat m)); [lia|].
   destruct (Z.ltb_spec (Z.of_N (N.of_nat (length v)) + Z.of_nat m) (Z.of_nat m)); [lia|].
   rewrite nat_N_Z, Nat2Z.id.
